@@ -334,6 +334,11 @@ func (s *Seq) runOp(name string, line Sx, script []string, f func() Sx) opResult
 	if res.panicv != nil {
 		s.c.MonitorFail("C06", "C06/panic/"+name+"/"+panicSig(res.panicv), fmt.Sprintf("%s panicked: %v", name, res.panicv), s.replay())
 	}
+	// C20: a request handler hands the error of the Mint method to writeErr, which marshals it: anything that is not a
+	// cashu.Error becomes the body `{}` (no detail, no code).  The balance accessors are not behind a handler.
+	if outS == `(err 0 "raw")` && name != "balance" && name != "rotate" && name != "restart" {
+		s.c.MonitorFail("C20", "C20/error-shape/"+name+"/not-a-cashu-error", name+" was refused with an error that is not a cashu.Error: over HTTP the answer is the body {} without detail and code", s.replay())
+	}
 	if s.model {
 		lnc := res.ln
 		if name == "checkstate" {
